@@ -83,6 +83,13 @@ def expand(job):
                             base = tp_rec(rep, yy, a, b, sod=43200)
                             for dd in ({"y": 1}, {"y": -1}, {"y": 4}, {"mo": 1}, {"mo": -1}, {"mo": 12}, {"mo": -11}):
                                 yield {"mode": sp, "p": base, "d": dd, "how": "add"}
+    elif k == "gen":        # (mode, point, months, years) of MC_C05.tla's universe, emitted by TLC
+        for mm, rep, y, a, b, nmo, nyr in job["tuples"]:
+            d = {kk: v for kk, v in (("mo", nmo), ("y", nyr)) if v}
+            if not d:
+                continue
+            how = "add_months" if (nyr == 0 and (y + a + nmo) % 4 == 0) else ["add", "radd", "sub"][(y + a + b + nmo) % 3]
+            yield {"mode": mm, "p": tp_rec(rep, y, a, b, sod=43200, zh=5, zm=30, xd=2 if y < 0 else 0), "d": d, "how": how}
     elif k == "random":
         for _ in range(job["n"]):
             sp = gen.spelling(rnd)
@@ -113,8 +120,30 @@ YT_T = YT_Q + [("gregorian", y) for y in (-1, 1, 1999, 2015, 2100, 9999, -400, 2
     [(m, y) for m in ("360_day", "365day", "366_day") for y in (2000, 2020)]
 
 
+def gen_tuples(seed, limit):
+    import shutil
+    import tempfile
+    from harness import tlc
+    scratch = tempfile.mkdtemp(prefix="isodt_gen_")
+    try:
+        r = tlc.model_check("MC_C05.tla", "Gen_C05.cfg", scratch, workers=4)
+        tuples = tlc.gen_lines(r["out"])
+    finally:
+        shutil.rmtree(scratch, ignore_errors=True)
+    if len(tuples) < 30000:
+        raise tlc.MachineryError("TLC generated only %d month/year additions" % len(tuples))
+    if limit:
+        random.Random(seed).shuffle(tuples)
+        tuples = tuples[:limit]
+    return tuples
+
+
 def jobs(tier, seed):
     out = []
+    tuples = gen_tuples(seed, 10000 if tier == "quick" else 0)
+    step = len(tuples) // 6 + 1
+    for i in range(6):
+        out.append({"kind": "gen", "tuples": tuples[i * step:(i + 1) * step]})
     if tier == "quick":
         for sp, y in YT_Q:
             out.append({"kind": "special", "mode": sp, "y": y, "months": [1, -1, 2, 11, -11, 12, -13, 25, -25],
